@@ -285,6 +285,11 @@ func runC01(c *ctx) {
 		}
 		wrapped := c.r.bool()
 		sc := schemaSpec{types: []typeSpec{other, t}, wrapped: map[string]bool{t.name: wrapped}}
+		if t.name != "alltypes" && c.r.chance(1, 3) {
+			// another type whose name differs only in case, listed first
+			decoy := typeSpec{name: strings.ToUpper(t.name), fields: []fieldSpec{{name: "decoy", code: 1}}}
+			sc.types = []typeSpec{decoy, other, t}
+		}
 		c01Case(c, sc, t.name, wrapped, c01Ops(c.r, t, c.r.bool()), pick(c.r, []string{"", "/", "http://h", "http://h/p/"}), "random")
 	}
 }
